@@ -745,6 +745,133 @@ def class_c10a(text):
     return False
 
 
+# ---------------------------------------------------------------------------------------------
+# composition family: several layout freedoms applied to ONE expression
+#
+# a call chain (root of every kind) x the position of the chain in its statement (same line / value on its
+# own indented line after `=`, `return`, `yield` / argument of a parenthesis-free call on its own line /
+# one argument per line / map-block value / if body / right operand on a continuation line) x how the chain
+# is broken x an operator continuation after it x comments / blank lines between the lines x the
+# indentation width of every nesting level (1, 2, 3, 4, 8 spaces, tabs); reference = the one-line spelling.
+
+COMP_ROOTS = [
+    # name, root text, links, uses self
+    ("id", "data", [".to_tuple()", ".last()"], False),
+    ("string", "'a,b,c'", [".split(',')", ".to_tuple()", ".size()"], False),
+    ("number", "12", [".max(20)", ".min(15)"], False),
+    ("paren", "(data)", [".to_tuple()", ".last()"], False),
+    ("list", "[3, 1, 2]", [".to_tuple()", ".last()"], False),
+    ("map", "{a: 1, b: 2}", [".keys()", ".to_tuple()", ".size()"], False),
+    ("call", "ident(data)", [".to_tuple()", ".first()"], False),
+    ("index", "data[1..]", [".to_tuple()", ".size()"], False),
+    ("self", "self", [".data", ".to_tuple()", ".last()"], True),
+]
+COMP_POSITIONS = ["same", "assign", "return", "yield", "arg", "args", "mapvalue", "ifbody", "operand"]
+COMP_CHAINS = ["one", "all", "tail"]
+COMP_INDENTS = [(2, 2, 2, 2, 2), (1, 1, 1, 1, 1), (3, 3, 3, 3, 3), (4, 4, 4, 4, 4), (8, 8, 8, 8, 8), "tabs",
+                (2, 4, 1, 3, 2), (4, 2, 8, 1, 3), (1, 3, 2, 4, 2)]
+
+
+def comp_statement(root, links, position, chain, tail_op):
+    """(lines of the laid-out statement as (relative level, text), the one-line spelling, how to read the result)"""
+    def e_lines(prefix, rel, suffix=""):
+        if chain == "one":
+            ls = [(rel, prefix + root + "".join(links))]
+        elif chain == "all":
+            ls = [(rel, prefix + root)] + [(rel + 1, l) for l in links]
+        else:
+            ls = [(rel, prefix + root + links[0])] + [(rel + 1, l) for l in links[1:]]
+        if tail_op:
+            ls.append((rel + 1, "+ 1"))
+        ls[-1] = (ls[-1][0], ls[-1][1] + suffix)
+        return ls
+    e1 = root + "".join(links) + (" + 1" if tail_op else "")
+    if position == "same":
+        return e_lines("x = ", 0), f"x = {e1}", "x"
+    if position == "assign":
+        return [(0, "x =")] + e_lines("", 1), f"x = {e1}", "x"
+    if position == "return":
+        return [(0, "return")] + e_lines("", 1), f"return {e1}", None
+    if position == "yield":
+        return [(0, "yield")] + e_lines("", 1), f"yield {e1}", None
+    if position == "arg":
+        return [(0, "x = show")] + e_lines("", 1), f"x = show {e1}", "x"
+    if position == "args":
+        return [(0, "x = pair")] + e_lines("", 1, ",") + [(1, "7")], f"x = pair {e1}, 7", "x"
+    if position == "mapvalue":
+        return [(0, "mm ="), (1, "k:")] + e_lines("", 2), f"mm = {{k: {e1}}}", "mm.k"
+    if position == "ifbody":
+        return [(0, "x = if data.size() > 1")] + e_lines("", 1) + [(0, "else"), (1, "0")], \
+            f"x = if data.size() > 1 then {e1} else 0", "x"
+    if position == "operand":
+        return [(0, "x = 1 +")] + e_lines("", 1), f"x = 1 + {e1}", "x"
+    raise ValueError(position)
+
+
+def comp_program(rootspec, position, chain, tail_op, trivia, indents, rng):
+    """returns (layout text, one-line text)"""
+    name, root, links, uses_self = rootspec
+    lines, oneline, result = comp_statement(root, links, position, chain, tail_op)
+    setup = ["data = [3, 1, 2]", "show = |x| x", "pair = |a, b| (a, b)", "ident = |x| x"]
+    if uses_self:
+        head = [(0, "obj ="), (1, "data: [3, 1, 2]"), (1, "get: ||")]
+        base = 2
+        call = "obj.get()"
+    else:
+        head = [(0, "f = ||")]
+        base = 1
+        call = "f()"
+    tail = [(base, result)] if result else []
+    last = [(0, f"print {call}.to_tuple()" if position == "yield" else f"print {call}")]
+
+    def width(level):
+        if indents == "tabs":
+            return "\t" * level
+        return " " * sum(indents[:level])
+
+    def emit(body):
+        out = []
+        allv = head + [(base + l, t) for l, t in body] + tail
+        for i, (l, t) in enumerate(allv):
+            inbody = len(head) <= i < len(head) + len(body)
+            if inbody and i > len(head) and trivia == "between" and rng is not None:
+                k = rng.below(3)
+                if k == 0:
+                    out.append("")
+                elif k == 1:
+                    out.append(width(l) + "# between")
+                else:
+                    out.append(" " * rng.below(9) + "# note")
+            text = width(l) + t
+            if inbody and trivia == "eol":
+                text += rng.choice(["  # c", " # c", "   #- c -#", "  "]) if rng is not None else "  # c"
+            out.append(text)
+        return "\n".join(setup + out + [t for _, t in last]) + "\n"
+    return emit(lines), emit([(0, oneline)] if True else lines)
+
+
+def comp_cases(rng, tier):
+    out = []
+    for rs in COMP_ROOTS:
+        for pos in COMP_POSITIONS:
+            for ch in COMP_CHAINS:
+                combos = [(False, "none", COMP_INDENTS[0])]
+                if tier == "quick":
+                    for _ in range(3):
+                        combos.append((rng.chance(1, 2), rng.choice(["none", "eol", "between"]), rng.choice(COMP_INDENTS)))
+                else:
+                    combos = [(t, tr, ind) for t in (False, True) for tr in ("none", "eol", "between") for ind in COMP_INDENTS]
+                for tail_op, trivia, ind in combos:
+                    if pos == "same" and ch == "one" and not tail_op:
+                        continue     # that IS the one-line spelling
+                    layout, _ = comp_program(rs, pos, ch, tail_op, trivia, ind, rng)
+                    _, ref = comp_program(rs, pos, ch, tail_op, "none", COMP_INDENTS[0], None)
+                    out.append({"root": rs[0], "position": pos, "chain": ch, "tail_op": tail_op, "trivia": trivia,
+                                "indent": ind if ind == "tabs" else list(ind), "src": layout, "ref": ref})
+    return out
+
+
+
 def corpus_cases():
     out = []
     d = os.path.join(C.VERIF, "corpus", PID)
@@ -903,6 +1030,10 @@ def run(tier, seed):
         elif cc.get("kind") == "prefix":
             add({"mode": "prog", "src": cc["src"]}, {"kind": "corpus-prefix", "c": cc})
 
+    for cc in comp_cases(rng, tier):
+        add({"mode": "prog", "src": cc["ref"], "run": True}, {"kind": "composition", "role": "ref", "c": cc})
+        add({"mode": "prog", "src": cc["src"], "run": True}, {"kind": "composition", "role": "layout", "c": cc})
+
     progs = []
     for pi in range(nprog):
         prog = gen_program(rng, 3 + rng.below(6))
@@ -960,6 +1091,8 @@ def run(tier, seed):
 
     fails = []   # (size, name, payload)
     used_hist = {}
+    comp_hist = {}
+    comp_ref_fail = set()
     canon_fail = 0
     for i, (c, m, r) in enumerate(zip(cases, meta, res)):
         src = c["src"]
@@ -1025,6 +1158,30 @@ def run(tier, seed):
             if ie != (m["c"]["expect"] == "indent"):
                 fails.append((len(src), "prefix", {"src": src, "impl_says": r, "predicate_failed":
                                                    f"corpus prefix: expected {m['c']['expect']}"}))
+        elif k == "composition" and m["role"] == "layout":
+            a = res[i - 1]
+            cc = m["c"]
+            chk.count_case(src, True)
+            key = f"{cc['root']}/{cc['position']}/{cc['chain']}"
+            comp_hist[key] = comp_hist.get(key, 0) + 1
+            if not a.get("ok"):
+                comp_ref_fail.add((cc["root"], cc["position"], cc["tail_op"]))
+                continue
+            what = None
+            if not r.get("ok"):
+                what = f"composed layout does not parse ({r.get('err_kind')}, line {r.get('err_line')}) but the one-line spelling does"
+            elif r["loose"] != a["loose"]:
+                what = "AST (spans erased, notational flags dropped) differs from the one-line spelling's"
+            elif (r.get("result"), r.get("out")) != (a.get("result"), a.get("out")):
+                what = f"run result differs: {r.get('result')!r}/{r.get('out')!r} vs one-line {a.get('result')!r}/{a.get('out')!r}"
+            if what:
+                fails.append((len(src), "composition", {
+                    "src": src, "canonical_src": cc["ref"],
+                    "freedoms_used": [f"root={cc['root']}", f"position={cc['position']}", f"chain={cc['chain']}",
+                                      f"tail_op={cc['tail_op']}", f"trivia={cc['trivia']}", f"indent={cc['indent']}"],
+                    "impl_says": {kk: r.get(kk) for kk in ("ok", "err_kind", "err_line", "result", "out", "loose")},
+                    "canonical_says": {kk: a.get(kk) for kk in ("ok", "result", "out", "loose")},
+                    "predicate_failed": what}))
         elif k == "corpus-pair" and m["role"] == "b":
             a = res[i - 1]
             chk.count_case(src, True)
@@ -1039,6 +1196,9 @@ def run(tier, seed):
                                                        "canonical_says": a, "predicate_failed": "corpus pair behaves differently"}))
             elif m["c"].get("known"):
                 chk.notes.append(f"known finding no longer reproduces: {m['c']['known']}")
+    if comp_ref_fail:
+        chk.notes.append(f"composition family: one-line spelling rejected for {sorted(comp_ref_fail)} (skipped)")
+        chk.log(f"composition family: one-line spelling rejected for {sorted(comp_ref_fail)}")
     if canon_fail:
         chk.notes.append(f"{canon_fail} generated programs do not parse in their canonical layout (generator defect; skipped)")
     chk.oblige("gen:programs parse in canonical layout (>= 95%)", canon_fail * 20 <= nprog, f"{canon_fail}/{nprog}")
